@@ -9,7 +9,10 @@ EXPLANATION = ('Data-structure invariant Inv(alg) over operator_dict / numspace:
                'three classes (exact stores, nothing else written), and frame obligations on __call__/_call_binary/Registry.__call__ (no '
                'attribute or item of an operand is written; the result is a function of operands and cache only).  (2) needs function '
                'names to be unique per ordered key pattern: the naming helper _type_id is checked exhaustively for d <= 3 (bounded).  '
-               'Thread interleavings and JIT wrappers: not decidable with per-call contracts -- not claimed.')
+               'Thread interleavings and JIT wrappers: not decidable with per-call contracts -- not claimed.  State memoised on a multivector '
+               '(per-object caches that outlive an in-place update of its coefficients) is outside every per-call contract: bounded stand-in '
+               'inplace_history (op; in-place update; op, compared with a fresh algebra).  Known finding F19: the memoised _callable of a '
+               'symbolic multivector.')
 TRUSTED = ['z3 5.1 (python API)', 'kvc VC generator', 'CPython ast module']
 ASSUMPTIONS = [K.ASSUME_CPYTHON, 'single-threaded execution: the thread-interleaving clause of C09 is NOT decided',
                'generated functions are pure (C02-C05: ring expressions of their arguments)',
